@@ -56,3 +56,8 @@ impl DnsAclHandler {
         self.next.handle_query(msg).await
     }
 }
+
+#[cfg(feature = "isomer_erbium_verif")]
+mod isomer_erbium_verif {
+    include!(concat!(env!("ISOMER_ERBIUM_VERIF_DIR"), "/dns_acl.rs"));
+}
